@@ -38,6 +38,25 @@ def handlers(ctx, modnames):
             raise AnalysisError(f"cannot load {mn}: {e}")
         qidx = qualname_index(src.tree)
         for node in ast.walk(src.tree):
+            if isinstance(node, ast.With):
+                # `with suppress(E, ...):` is `try: ... except (E, ...): pass`
+                for item in node.items:
+                    ce = item.context_expr
+                    if isinstance(ce, ast.Call) and ast.unparse(ce.func).split(".")[-1] == "suppress":
+                        q, fn = enclosing(qidx, src.tree, node)
+                        types = []
+                        for a_ in ce.args:
+                            try:
+                                v = I.ev(a_, mod.env, Run())
+                            except (Raised, Limit):
+                                v = None
+                            if v is not None:
+                                types.append(v)
+                        out.append({"module": mn, "function": q, "line": node.lineno, "file": src.rel, "types": types,
+                                    "type_src": ", ".join(ast.unparse(a_) for a_ in ce.args), "reraises_same": False, "raises": False,
+                                    "try_has_call": any(isinstance(s_, ast.Call) for st in node.body for s_ in ast.walk(st)),
+                                    "stmt": f"with {ast.unparse(ce)}: ..."})
+                continue
             if not isinstance(node, ast.Try):
                 continue
             for h in node.handlers:
